@@ -389,6 +389,13 @@ func init() {
 	// function of the key bytes for symbolic keys (placement is then any consistent assignment)
 	reg(`github.com/innovationb1ue/RedisGO/util.HashKey`, func(in *Interp, th *Thread, fn *ssa.Function, args []Value) (Value, bool) {
 		s := in.str(args[0])
+		if !s.IsConcrete() && !in.hashUF && s.Num == nil && s.FloatOf == nil && !in.inPure {
+			// exact hashing of a key with a single symbolic byte: the real function is run concretely
+			// for each of the 256 byte values and the result is a table lookup on that byte
+			if t, ok := in.tabulate1(fn, s); ok {
+				return t, true
+			}
+		}
 		if s.IsConcrete() || !in.hashUF {
 			if s.Num != nil || s.FloatOf != nil {
 				if !in.hashUF {
@@ -739,4 +746,75 @@ func (in *Interp) decimalBytes(x *Term, signed bool) ([]*Term, bool) {
 		out = append(out, ts.Bin(OAdd, ts.Extract(d, 7, 0), ts.BVConst(8, '0')))
 	}
 	return out, true
+}
+
+// tabulate1 evaluates the pure string->int function fn on s for every value of s's only symbolic byte
+// (by running fn's SSA concretely 256 times) and returns the result as an ite-table over that byte.
+func (in *Interp) tabulate1(fn *ssa.Function, s Str) (*Term, bool) {
+	b := in.strBytes(s)
+	pos := -1
+	for i, t := range b {
+		if !t.IsConst() {
+			if pos >= 0 || t.Op != OVar {
+				return nil, false
+			}
+			pos = i
+		}
+	}
+	if pos < 0 {
+		return nil, false
+	}
+	key := fmt.Sprintf("%s|%d|%x", fn.String(), pos, s.concreteShape())
+	tab, ok := in.pureTabs[key]
+	if !ok {
+		buf := make([]byte, len(b))
+		for i, t := range b {
+			if i != pos {
+				buf[i] = byte(t.C)
+			}
+		}
+		tab = make([]*Term, 256)
+		for v := 0; v < 256; v++ {
+			buf[pos] = byte(v)
+			r := in.evalPure(fn, []Value{Str{S: string(buf)}})
+			t, isT := r.(*Term)
+			if !isT || !t.IsConst() {
+				return nil, false
+			}
+			tab[v] = t
+		}
+		in.pureTabs[key] = tab
+	}
+	return in.selectChain(tab, b[pos]), true
+}
+
+func (s Str) concreteShape() []byte {
+	out := make([]byte, 0, len(s.B))
+	for _, t := range s.B {
+		if t.IsConst() {
+			out = append(out, byte(t.C))
+		} else {
+			out = append(out, 0xAA, 0x55)
+		}
+	}
+	return out
+}
+
+// evalPure runs fn on concrete arguments to completion on a scratch thread (no decisions, no effects
+// on the path's threads) and returns its result.
+func (in *Interp) evalPure(fn *ssa.Function, args []Value) Value {
+	saved := in.cur
+	savedPure := in.inPure
+	in.inPure = true
+	defer func() { in.cur = saved; in.inPure = savedPure }()
+	th := &Thread{id: -1}
+	in.cur = th
+	in.pushFrame(th, fn, args, nil, -1, false)
+	for th.top != nil {
+		in.safeStep(th)
+		if th.blocked != nil {
+			panic(abortf("pure evaluation blocked"))
+		}
+	}
+	return th.result
 }
